@@ -222,10 +222,15 @@ func c01exec(c *h.Ctx, cs *h.Case) {
 				e.mu.Unlock()
 			}
 			if from == "rt.parked" && loc == "finished" {
-				// the re-check found the tree: a flush goroutine was spawned
-				if err := e.expectFlush(t, nf); err != nil {
-					bad("no-flush-after-recheck", err.Error())
-					return false
+				// the re-check found the tree: a flush goroutine is spawned. If none shows up the case goes on
+				// all the same (the observations will differ from the model's): what counts is whether the
+				// parked message is handed over exactly once in the end
+				old := e.ctl.Timeout
+				e.ctl.Timeout = 1500 * time.Millisecond
+				err := e.expectFlush(t, nf)
+				e.ctl.Timeout = old
+				if err != nil {
+					c.Count("no-flush-after-recheck")
 				}
 			}
 			cs.Impl = append(cs.Impl, fmt.Sprintf("pc=%s %s", pcOf[loc], e.obs(t)))
@@ -302,7 +307,17 @@ func c01exec(c *h.Ctx, cs *h.Case) {
 				e.rounds[t][r] = uuid.New()
 			}
 			cs.Impl = append(cs.Impl, e.obs(t))
-		case "flush":
+		case "flush", "reflush":
+			if tk[1] == "reflush" {
+				e.mu.Lock()
+				nf := e.flushN[t]
+				e.mu.Unlock()
+				e.ov.RegisterTree(e.trees[t])
+				if err := e.expectFlush(t, nf); err != nil {
+					bad("no-flush-after-register", err.Error())
+					return false
+				}
+			}
 			e.mu.Lock()
 			var key string
 			if len(e.flushQ[t]) > 0 {
@@ -373,6 +388,22 @@ func c01exec(c *h.Ctx, cs *h.Case) {
 		}
 		if !moved {
 			break
+		}
+	}
+	// a later registration of a tree that is known by now (a local CreateProtocol / StartProtocol does that)
+	// flushes once more: nothing may be handed over a second time. Appended like the ops above.
+	for t := 0; t < 2; t++ {
+		op := fmt.Sprintf("c01 reflush %d", t)
+		already := false
+		for _, o := range cs.Ops {
+			already = already || o == op
+		}
+		if already || !strings.HasPrefix(e.ov.VerifTreeState(e.trees[t].ID), "present") {
+			continue
+		}
+		cs.Ops = append(cs.Ops, op)
+		if !doOp(op) {
+			return
 		}
 	}
 	// the property's oracle at quiescence
